@@ -12,6 +12,9 @@
 //!   `join:32`  add_join_base_vertices + tessellate_join (incl. round joins)
 //!   `arc:32`   tessellate_arc
 //!   `cap:32`   tessellate_round_cap;  `ecap:32` tessellate_empty_{square,round}_cap
+//!   `poly:32`  the PUBLIC stroker on polylines with bevel joins and butt caps (fixed width): the sequence
+//!              of (source endpoint, side) of its vertices and its triangle list, predicted by the model's
+//!              skeleton of fixed_width_step_impl / compute_join_side_positions_fixed_width / end / close
 //! End-to-end family (oracle only, no model): `stroke` — the public `StrokeTessellator` entry
 //! points with a recording `BuffersBuilder`, all joins × caps × widths × miter limits ×
 //! tolerances × fixed/variable width on polylines, curves, degenerate sub-paths.
@@ -1320,6 +1323,115 @@ fn run_stroke(inp: &StrokeInput, options: &StrokeOptions, entry: usize, n_attr: 
     CaseOut { imp: o, orcl: orc.verdict }
 }
 
+
+// ---------------------------------------------------------------------------------------------
+// polyline skeleton: vertex (source, side) sequence and triangle list of the public stroker for
+// fixed width, bevel joins, butt caps — predicted by the model's `Poly.path`
+
+fn poly_case(ctx: &mut Ctx) {
+    ctx.case("poly:32", |rng| {
+        let width = match rng.below(4) {
+            0 => 10f64.powf(rng.uniform(-1.5, 0.0)),
+            1 => rng.uniform(5.0, 40.0),
+            _ => rng.uniform(0.5, 6.0),
+        } as f32;
+        let tol = match rng.below(4) {
+            0 => 10f64.powf(rng.uniform(-3.0, -1.5)),
+            1 => rng.uniform(0.5, 3.0),
+            _ => rng.uniform(0.02, 0.4),
+        } as f32;
+        let thr = (tol * tol * 0.5).min(width * width * 0.05).max(1e-8f32);
+        let lattice = rng.chance(1, 3);
+        let n_sub = rng.range(1, 3) as usize;
+        let mut subs: Vec<(Vec<Point>, bool)> = Vec::new();
+        let mut kinds = [0u32; 6];
+        for _ in 0..n_sub {
+            let n = rng.range(1, 9) as usize;
+            let mut rp = |rng: &mut Rng| -> Point {
+                if lattice {
+                    point(rng.range(-8, 8) as f32, rng.range(-8, 8) as f32)
+                } else {
+                    point(rng.uniform(-10.0, 10.0) as f32, rng.uniform(-10.0, 10.0) as f32)
+                }
+            };
+            let mut pts = vec![rp(rng)];
+            while pts.len() < n {
+                let cur = *pts.last().unwrap();
+                let k = rng.below(10) as usize;
+                let next = match k {
+                    0 => cur,
+                    1 => cur + vector(thr.sqrt() * rng.uniform(-1.5, 1.5) as f32, thr.sqrt() * rng.uniform(-1.5, 1.5) as f32),
+                    2 => cur + vector(width * rng.uniform(-0.6, 0.6) as f32, width * rng.uniform(-0.6, 0.6) as f32),
+                    3 if pts.len() >= 2 => {
+                        // back along the previous edge (exact or nearly a 180° turn)
+                        let prev = pts[pts.len() - 2];
+                        let t = rng.uniform(0.1, 1.5) as f32;
+                        cur + (prev - cur) * t + if rng.chance(1, 2) { vector(0.0, 0.0) } else { vector(rng.uniform(-0.2, 0.2) as f32, rng.uniform(-0.2, 0.2) as f32) }
+                    }
+                    4 if pts.len() >= 2 => cur + (cur - pts[pts.len() - 2]),
+                    5 => pts[0],
+                    _ => rp(rng),
+                };
+                kinds[k.min(5)] += 1;
+                pts.push(next);
+            }
+            subs.push((pts, rng.chance(1, 2)));
+        }
+        let mut args = Out::new();
+        args.f(tol).f(width).u(subs.len() as u64);
+        for (pts, closed) in &subs {
+            args.u(pts.len() as u64).b(*closed);
+            for p in pts {
+                args.p(*p);
+            }
+        }
+        let total: usize = subs.iter().map(|s| s.0.len()).sum();
+        let tag = format!(
+            "poly subs={} points={} closed={} {}{}",
+            subs.len(),
+            total,
+            subs.iter().filter(|s| s.1).count(),
+            if lattice { "lattice" } else { "float" },
+            if total <= 1 { " trivial" } else { "" }
+        );
+        (args, tag, move || {
+            let options = StrokeOptions::tolerance(tol).with_line_width(width).with_line_join(LineJoin::Bevel).with_line_cap(LineCap::Butt);
+            let mut b = Path::builder();
+            for (pts, closed) in &subs {
+                b.begin(pts[0]);
+                for p in &pts[1..] {
+                    b.line_to(*p);
+                }
+                b.end(*closed);
+            }
+            let path = b.build();
+            let mut mesh: VertexBuffers<RecV, u32> = VertexBuffers::new();
+            let res = StrokeTessellator::new().tessellate(path.iter(), &options, &mut BuffersBuilder::new(&mut mesh, Ctor));
+            let mut o = Out::new();
+            let mut orc = Oracle::new();
+            orc.check(res.is_ok(), "poly/ok", "generic", || format!("{:?}", res));
+            o.t("V").u(mesh.vertices.len() as u64);
+            for v in &mesh.vertices {
+                match v.source {
+                    VertexSource::Endpoint { id } => o.u(id.0 as u64),
+                    VertexSource::Edge { .. } => o.t("edge"),
+                };
+                put_side(&mut o, v.side);
+                orc.check(fin(v.position) && finv(v.normal) && v.advancement.is_finite(), "poly/finite", "generic", || format!("{:?}", v));
+                orc.check(position_def_ok(v.position, v.pop, v.normal, v.line_width), "poly/position-def", "generic", || format!("{:?}", v));
+            }
+            o.t("T").u((mesh.indices.len() / 3) as u64);
+            let nv = mesh.vertices.len() as u32;
+            for t in mesh.indices.chunks(3) {
+                o.u(t[0] as u64).u(t[1] as u64).u(t[2] as u64);
+                orc.check(t[0] != t[1] && t[1] != t[2] && t[0] != t[2], "poly/distinct-ids", "generic", || format!("{:?}", t));
+                orc.check(t.iter().all(|i| *i < nv), "poly/valid-ids", "generic", || format!("{:?} of {}", t, nv));
+            }
+            CaseOut { imp: o, orcl: orc.verdict }
+        })
+    });
+}
+
 fn main() {
     let mut ctx = Ctx::from_args("C05");
     // PointBuffer: every operation sequence up to length L over {push, replace_last, clear}
@@ -1367,6 +1479,9 @@ fn main() {
     }
     for _ in 0..ctx.n(6000, 250000) {
         stroke_case(&mut ctx);
+    }
+    for _ in 0..ctx.n(3000, 100000) {
+        poly_case(&mut ctx);
     }
     ctx.finish();
 }
